@@ -456,6 +456,13 @@ pub fn gen_udp_plan_for(g: &mut Gen, thorough: bool, max_payload: usize, edge: O
         targets[1].name = name;
         targets[1].port = if port < 39_000 { port + 1 + g.below(50) as u16 } else { port - 1 };
     }
+    else if n_targets >= 2 && g.chance(35) {
+        // different hosts answering from the same port (two resolvers on :53): only the address tells them apart
+        let port = targets[0].port;
+        for t in targets.iter_mut() {
+            t.port = port;
+        }
+    }
     let mut apps = Vec::new();
     for _ in 0..n_apps {
         let n_ops = g.range(1, if thorough { 30 } else { 10 });
